@@ -856,8 +856,182 @@ mod pc_stream {
         }
     }
 }
+/// API ops racing with `receive()`: the `verif_sched` yield points park each thread at named points;
+/// a schedule (a string over {r, s}) says which thread runs up to its next point. Every schedule of
+/// the small programs is executed on the real `IceConn` with two OS threads.
+///  * correspondence: final full state vs the interleaving model `RtcModel.LatchRace` for the same schedule;
+///  * oracle (independent of the model): the outcome must be serializable — equal to running the two
+///    calls one after the other, in one of the two orders, on the real code.
 mod race {
     use super::*;
-    pub fn run(_run: &mut Run, _args: &Args) {}
-    pub fn replay(_case: &str) {}
+    use rustrtc::transports::ice::conn::verif_sched;
+    use std::cell::Cell;
+    use std::sync::{Condvar, Mutex as StdMutex};
+    use std::time::Duration;
+
+    #[derive(Default)]
+    struct St { paused: [Option<&'static str>; 2], go: [bool; 2], done: [bool; 2], holds: [bool; 2] }
+    struct Ctl { m: StdMutex<St>, cv: Condvar }
+    thread_local! { static TID: Cell<Option<usize>> = const { Cell::new(None) }; }
+
+    fn park(ctl: &Ctl, t: usize, name: &'static str) {
+        let mut g = ctl.m.lock().unwrap();
+        if name.ends_with(":unlocked") { g.holds[t] = false; }
+        g.paused[t] = Some(name);
+        ctl.cv.notify_all();
+        while !g.go[t] { g = ctl.cv.wait(g).unwrap(); }
+        g.go[t] = false;
+        g.paused[t] = None;
+        if name.ends_with(":before-lock") { g.holds[t] = true; }
+    }
+
+    #[derive(Clone, Debug, PartialEq)]
+    pub enum Api { Sig(u8, u16), Reset, Pair(u8, u16) }
+    pub struct RaceCase { pub setup: Case, pub pkt: (u8, u16, Vec<u8>), pub api: Api, pub sched: String }
+
+    fn api_text(a: &Api) -> String { match a { Api::Sig(i, p) => format!("sg,{i},{p}"), Api::Reset => "rs".into(), Api::Pair(i, p) => format!("pr,{i},{p}") } }
+    pub fn text(c: &RaceCase) -> String {
+        format!("race {} | p,{},{},{} | {} | {}", case_text(&c.setup), c.pkt.0, c.pkt.1, hex(&c.pkt.2), api_text(&c.api), c.sched)
+    }
+    pub fn parse(s: &str) -> RaceCase {
+        let parts: Vec<&str> = s.trim_start_matches("race ").split(" | ").collect();
+        let setup = parse_case(parts[0]);
+        let pk = match &parse_case(&format!("init,0,0,0,0 {}", parts[1])).ops[0] { Op::Pkt(i, p, b) => (*i, *p, b.clone()), _ => panic!() };
+        let api = match &parse_case(&format!("init,0,0,0,0 {}", parts[2])).ops[0] { Op::Sig(i, p) => Api::Sig(*i, *p), Op::Reset => Api::Reset, Op::Pair(i, p) => Api::Pair(*i, *p), _ => panic!() };
+        RaceCase { setup, pkt: pk, api, sched: parts[3].to_string() }
+    }
+
+    fn build(c: &Case) -> Arc<IceConn> {
+        let (_tx, rx) = watch::channel::<Option<IceSocketWrapper>>(None);
+        let conn = hook::new_with_rtcp(rx.clone(), rx, sa(c.init.0, c.init.1), if c.maxp == 0 { None } else { Some(c.maxp) });
+        let rt = tokio::runtime::Builder::new_current_thread().build().unwrap();
+        let mut mb = vec![];
+        for op in &c.ops { match op {
+            Op::Pkt(ip, port, b) => rt.block_on(conn.receive(Bytes::from(b.clone()), sa(*ip, *port), &mut mb)),
+            Op::Enable => conn.enable_latch_on_rtp(), Op::Reset => conn.reset_latch(),
+            Op::Sig(ip, p) => hook::set_remote_addr_from_signaling(&conn, sa(*ip, *p)),
+            Op::Pair(ip, p) => hook::set_remote_addr_from_selected_pair(&conn, sa(*ip, *p)),
+            Op::Ssrc(v) => conn.set_expected_ssrc(*v),
+            Op::Maxp(v) => conn.set_probation_max_packets(if *v == 0 { None } else { Some(*v) }),
+            Op::RtcpAddr(a) => conn.set_remote_rtcp_addr(a.map(|(i, p)| sa(i, p))),
+        } }
+        conn
+    }
+    fn do_api(conn: &IceConn, a: &Api) { match a {
+        Api::Sig(i, p) => hook::set_remote_addr_from_signaling(conn, sa(*i, *p)), Api::Reset => conn.reset_latch(),
+        Api::Pair(i, p) => hook::set_remote_addr_from_selected_pair(conn, sa(*i, *p)) } }
+    fn do_pkt(conn: &IceConn, pk: &(u8, u16, Vec<u8>)) {
+        let rt = tokio::runtime::Builder::new_current_thread().build().unwrap();
+        let mut mb = vec![];
+        rt.block_on(conn.receive(Bytes::from(pk.2.clone()), sa(pk.0, pk.1), &mut mb));
+    }
+    fn final_text(conn: &IceConn) -> String { observe(conn, "-").text(None).0 }
+
+    /// Runs the schedule; `Err` if a released thread neither reached a point nor finished in time.
+    pub fn exec(c: &RaceCase) -> Result<String, String> {
+        let conn = build(&c.setup);
+        let ctl = Arc::new(Ctl { m: StdMutex::new(St::default()), cv: Condvar::new() });
+        let ctl_h = ctl.clone();
+        verif_sched::set(Some(Arc::new(move |name: &'static str| { if let Some(t) = TID.with(|x| x.get()) { park(&ctl_h, t, name); } })));
+        let mut hs = vec![];
+        for t in 0..2 {
+            let (conn, ctl, pk, api) = (conn.clone(), ctl.clone(), c.pkt.clone(), c.api.clone());
+            hs.push(std::thread::spawn(move || {
+                TID.with(|x| x.set(Some(t)));
+                park(&ctl, t, "start");
+                if t == 0 { do_pkt(&conn, &pk) } else { do_api(&conn, &api) }
+                let mut g = ctl.m.lock().unwrap();
+                g.done[t] = true; g.holds[t] = false; g.paused[t] = None;
+                ctl.cv.notify_all();
+            }));
+        }
+        let wait_parked = |t: usize| -> Result<(), String> {
+            let mut g = ctl.m.lock().unwrap();
+            let deadline = std::time::Instant::now() + Duration::from_secs(3);
+            while !(g.done[t] || (g.paused[t].is_some() && !g.go[t])) {
+                let (g2, to) = ctl.cv.wait_timeout(g, Duration::from_millis(200)).unwrap();
+                g = g2;
+                if to.timed_out() && std::time::Instant::now() > deadline { return Err(format!("thread {t} neither parked nor finished")); }
+            }
+            Ok(())
+        };
+        let mut err = None;
+        for t in 0..2 { if let Err(e) = wait_parked(t) { err = Some(e); } }
+        let tail = "rsrsrsrsrsrsrsrsrsrs";
+        if err.is_none() {
+            for ch in c.sched.chars().chain(tail.chars()) {
+                let t = if ch == 'r' { 0 } else { 1 };
+                {
+                    let mut g = ctl.m.lock().unwrap();
+                    if g.done[t] { continue; }
+                    let at = g.paused[t].unwrap_or("");
+                    if at.ends_with(":before-lock") && g.holds[1 - t] { continue; } // would block on the probation mutex
+                    g.go[t] = true;
+                    ctl.cv.notify_all();
+                }
+                if let Err(e) = wait_parked(t) { err = Some(e); break; }
+            }
+        }
+        if err.is_some() { // release everything so the threads can end
+            let mut g = ctl.m.lock().unwrap(); g.go = [true, true]; ctl.cv.notify_all(); drop(g);
+            verif_sched::set(None);
+            std::thread::sleep(Duration::from_millis(50));
+            let mut g = ctl.m.lock().unwrap(); g.go = [true, true]; ctl.cv.notify_all(); drop(g);
+        }
+        verif_sched::set(None);
+        if let Some(e) = err { return Err(e); }
+        for h in hs { let _ = h.join(); }
+        Ok(final_text(&conn))
+    }
+    /// the two serial executions on the real code
+    fn serial(c: &RaceCase) -> [String; 2] {
+        let a = build(&c.setup); do_pkt(&a, &c.pkt); do_api(&a, &c.api);
+        let b = build(&c.setup); do_api(&b, &c.api); do_pkt(&b, &c.pkt);
+        [final_text(&a), final_text(&b)]
+    }
+
+    fn setups() -> Vec<(&'static str, Case, (u8, u16, Vec<u8>))> {
+        let pre = |maxp: u8, ops: Vec<Op>| Case { init: (9, 5009), maxp, tcp: false, ops: [vec![Op::Ssrc(SSRC), Op::Enable], ops].concat() };
+        let a = SRC[0]; let b = SRC[1];
+        vec![
+            ("commit-to-own-source(marker)", pre(6, vec![]), (a.0, a.1, rtp(true, 10, 10, SSRC))),
+            ("commit-to-earlier-candidate", pre(6, vec![Op::Pkt(b.0, b.1, rtp(false, 5, 5, SSRC)), Op::Pkt(a.0, a.1, rtp(false, 9, 9, SSRC))]), (a.0, a.1, rtp(true, 10, 10, SSRC))),
+            ("commit-by-window", pre(2, vec![Op::Pkt(b.0, b.1, rtp(false, 5, 5, SSRC))]), (a.0, a.1, rtp(false, 10, 10, SSRC))),
+            ("no-commit", pre(6, vec![Op::Pkt(b.0, b.1, rtp(false, 5, 5, SSRC))]), (a.0, a.1, rtp(false, 10, 10, SSRC))),
+            ("immediate-mode", pre(0, vec![]), (a.0, a.1, rtp(false, 10, 10, SSRC))),
+            ("already-latched", pre(6, vec![Op::Pkt(b.0, b.1, rtp(true, 5, 5, SSRC))]), (a.0, a.1, rtp(true, 10, 10, SSRC))),
+            ("packet-from-current-destination", pre(6, vec![Op::Sig(a.0, a.1)]), (a.0, a.1, rtp(true, 10, 10, SSRC))),
+        ]
+    }
+
+    pub fn run(run: &mut Run, args: &Args) {
+        let bits = if args.tier_thorough { 9 } else { 7 };
+        for (name, setup, pk) in setups() {
+            for api in [Api::Sig(SIG.0, SIG.1), Api::Reset, Api::Pair(PAIR.0, PAIR.1), Api::Pair(SRC[1].0, SRC[1].1)] {
+                for idx in 0..(1u32 << bits) {
+                    let sched: String = (0..bits).map(|k| if idx >> k & 1 == 0 { 'r' } else { 's' }).collect();
+                    let c = RaceCase { setup: Case { init: setup.init, maxp: setup.maxp, tcp: false, ops: setup.ops.clone() }, pkt: pk.clone(), api: api.clone(), sched };
+                    let t = text(&c);
+                    match exec(&c) {
+                        Err(e) => { run.fail("race:schedule-did-not-complete", &t, &e); }
+                        Ok(out) => {
+                            run.case("race", t.trim_start_matches("race "), &out, true);
+                            let ser = serial(&c);
+                            if out != ser[0] && out != ser[1] {
+                                run.fail(&format!("race:{}:outcome-not-serializable", match api { Api::Sig(..) => "signaling-retarget", Api::Reset => "reset", Api::Pair(..) => "pair-update" }),
+                                    &t, &format!("{name}: outcome {out}; receive-then-api {}; api-then-receive {}", ser[0], ser[1]));
+                            } else { run.count(if out == ser[0] && out == ser[1] { "race_outcome_same_in_both_orders" } else if out == ser[0] { "race_outcome_receive_first" } else { "race_outcome_api_first" }); }
+                        }
+                    }
+                    run.count("race_schedules");
+                }
+            }
+        }
+    }
+    pub fn replay(case: &str) {
+        let c = parse(case);
+        match exec(&c) { Err(e) => println!("schedule did not complete: {e}"), Ok(o) => { println!("impl: {o}"); let s = serial(&c);
+            println!("receive-then-api: {}\napi-then-receive: {}", s[0], s[1]);
+            if o != s[0] && o != s[1] { println!("ORACLE-FAIL race:outcome-not-serializable"); } } }
+    }
 }
